@@ -58,7 +58,7 @@ CHECKS = {
     "C07": (
         "exhaustive enumeration of all 65536 port addresses x read/write per device configuration with a decode oracle; property-based testing (proptest) of floating-bus reads",
         "exploration",
-        "All 65536 addresses are read and written by the emulated CPU on six device configurations plus generated I/O-extender claim predicates; routing is judged where the property's decode predicates select exactly one device (or none), every access also checks that no other device changed state and that the extender log holds exactly the claimed accesses. Unclaimed reads at generated beam positions must be 0xFF outside the fetch windows and otherwise 0xFF or a display/attribute byte of the line being fetched in the displayed bank. Well inside a fetch window one of eight consecutive start times must show a fetched byte. A further phase changes the extender's claims between accesses of the same port.",
+        "All 65536 addresses are read and written by the emulated CPU on six device configurations plus generated I/O-extender claim predicates; routing is judged where the property's decode predicates select exactly one device (or none), every access also checks that no other device changed state and that the extender log holds exactly the claimed accesses. Unclaimed reads at generated beam positions must be 0xFF outside the fetch windows and otherwise 0xFF or a display/attribute byte of the line being fetched in the displayed bank. Well inside a fetch window one of eight consecutive start times must show a fetched byte. A further phase changes the extender's claims between accesses of the same port. Also: two unclaimed reads at the same position within two different picture lines are both 0xFF or both a fetched byte.",
         "Trusted: decode predicates from the property text (conservative reading of the mouse decode), state observation through border_color(), paging hook and unclaimed AY helper ports. EAR polarity belongs to C11.",
         "DESIGN.md section 5 (C07)",
         "E2 emulator lock-step",
@@ -90,7 +90,7 @@ CHECKS = {
     "C11": (
         "property-based testing (proptest): pulse generator under generated time-step schedules vs. a synthesised nominal waveform; real ROM loader in real time vs. LD-BYTES model",
         "exploration",
-        "Component level: every interval between EAR edges, for any partition of time into 1..16 T steps, must lie in [nominal, nominal+32] with exact count and order (pilot 8063 / >= 3223, sync 667+735, two pulses per bit MSB first, ~1 s pause). System level: the real ROM LD-BYTES loads the playing tape and must return the carry, IX, DE and memory the block's bytes imply. Tape assets deliver all at once or in short reads; half of the real-time loads run with the host's fast-load setting on and a third after an SZX with a KEYB chunk; a further phase checks the EAR bit on generated ULA addresses against bracketing reads of 0x7FFE.",
+        "Component level: every interval between EAR edges, for any partition of time into 1..16 T steps, must lie in [nominal, nominal+32] with exact count and order (pilot 8063 / >= 3223, sync 667+735, two pulses per bit MSB first, ~1 s pause). System level: the real ROM LD-BYTES loads the playing tape and must return the carry, IX, DE and memory the block's bytes imply. Tape assets deliver all at once or in short reads; half of the real-time loads run with the host's fast-load setting on and a third after an SZX with a KEYB chunk; a further phase checks the EAR bit on generated ULA addresses against bracketing reads of 0x7FFE. In part of the real-time cases the first block is consumed by a fast-load request (possibly leaving it early) before PLAY is pressed.",
         "Trusted: waveform synthesiser and LD-BYTES model written from the format/ROM documentation; Tap re-export hook.",
         "DESIGN.md section 5 (C11)",
         "E4 tape models + emulator",
@@ -98,7 +98,7 @@ CHECKS = {
     "C12": (
         "property-based testing (proptest) of play/stop/rewind/advance command histories against a deck model with a waveform-prefix oracle",
         "exploration",
-        "Generated command histories drive the pulse generator; no edge may occur while stopped, and the edge stream over playing time, cut at rewinds and complete passes, must always be a prefix of the nominal waveform of the whole tape (clean pilot, every pulse in tolerance), so blocks appear once and in order; a replay after the end needs a play command. Further phases: long blocks around the 128-byte buffer multiples, assets with short reads or handed over at a non-zero offset, and an emulator-level phase in which a stopped deck must stay frozen across save_snapshot, load_screen, pokes and setting calls.",
+        "Generated command histories drive the pulse generator; no edge may occur while stopped, and the edge stream over playing time, cut at rewinds and complete passes, must always be a prefix of the nominal waveform of the whole tape (clean pilot, every pulse in tolerance), so blocks appear once and in order; a replay after the end needs a play command. Further phases: long blocks around the 128-byte buffer multiples, assets with short reads or handed over at a non-zero offset, and an emulator-level phase in which a stopped deck must stay frozen across save_snapshot, load_screen, pokes and setting calls. The emulator-level deck phase also issues further PLAY/STOP/REWIND commands before the STOP it observes.",
         "Trusted: deck model and nominal waveform; Tap re-export hook. Short data-flag blocks only.",
         "DESIGN.md section 5 (C12)",
         "E4 tape models",
@@ -130,7 +130,7 @@ CHECKS = {
     "C16": (
         "property-based metamorphic testing (proptest): the same scenario under different host drivings and asset implementations must reach identical state hashes",
         "exploration",
-        "Generated interrupt-driven programs with AY/beeper/paging/screen/keyboard/joystick/mouse/tape activity and frame-indexed input scripts are run one frame per call (reference) and again under a partition into FrameCount(n) calls, maximum-speed mode with scripted stopwatch readings, breakpoint stops with resumption, undrained audio, sound switched off, and with the initial file delivered through BufferCursor, FileAsset, GzipAsset or 1..255-byte short reads; hashes of registers, all RAM, paging, frame clock, canvas and border must agree at every common frame count; repeated runs must also agree on audio bit for bit. The tape image and (with short reads) the ROM images travel through the asset kinds too; 128K snapshots have any bank paged (long SNA layout); sound is switched on and off between frames in one driving. An enumerated phase places the fast loader's trap address on the instruction that crosses a frame end (calibrated delay, 32 paddings, both machines, five drivings).",
+        "Generated interrupt-driven programs with AY/beeper/paging/screen/keyboard/joystick/mouse/tape activity and frame-indexed input scripts are run one frame per call (reference) and again under a partition into FrameCount(n) calls, maximum-speed mode with scripted stopwatch readings, breakpoint stops with resumption, undrained audio, sound switched off, and with the initial file delivered through BufferCursor, FileAsset, GzipAsset or 1..255-byte short reads; hashes of registers, all RAM, paging, frame clock, canvas and border must agree at every common frame count; repeated runs must also agree on audio bit for bit. The tape image and (with short reads) the ROM images travel through the asset kinds too; 128K snapshots have any bank paged (long SNA layout); sound is switched on and off between frames in one driving. An enumerated phase places the fast loader's trap address on the instruction that crosses a frame end (calibrated delay, 32 paddings, both machines, five drivings). Every FrameCount(n) call of a partition must complete exactly n frames under scripted stopwatch readings far beyond or jumping across the time limit.",
         "Trusted: frame-counter hook for alignment; inputs applied between calls at equal frame indices.",
         "DESIGN.md section 5 (C16)",
         "emulator metamorphic driver",
@@ -154,7 +154,7 @@ CHECKS = {
     "C19": (
         "property-based differential testing (proptest): sample counts and per-sample speaker levels against the reference machine's timestamped ULA writes",
         "exploration",
-        "Generated speaker-toggling programs at rates 8000-384000, volumes, enable combinations and drain behaviours: cumulative sample count must be frames x floor(rate/50); with the beeper alone every sample must equal the level of a speaker/MIC state current within one sample period of its frame time (levels measured on a calibration machine, states and times from the reference machine); monotone in EAR then MIC, left = right, linear in volume, volume 0 silent, finite; undrained queues stay below two frames. The per-frame count is exact; in a third of the cases the host re-asserts its settings mid-run.",
+        "Generated speaker-toggling programs at rates 8000-384000, volumes, enable combinations and drain behaviours: cumulative sample count must be frames x floor(rate/50); with the beeper alone every sample must equal the level of a speaker/MIC state current within one sample period of its frame time (levels measured on a calibration machine, states and times from the reference machine); monotone in EAR then MIC, left = right, linear in volume, volume 0 silent, finite; undrained queues stay below two frames. The per-frame count is exact; in a third of the cases the host re-asserts its settings mid-run. In part of the runs the host switches sound off before one frame and on again before a later one; the frames from there on are judged as before.",
         REF,
         "DESIGN.md section 5 (C19)",
         "E2 reference machine + emulator",
